@@ -346,7 +346,9 @@ class Run:
         if relative:
             os.chdir("/")
         if w["exclude_via"] == "methods":
-            self.fs.exclude_files(ex_names)
+            given = list(ex_names)
+            self.fs.exclude_files(given)
+            given.clear()             # the caller goes on using its own list
             self.fs.exclude_times(ex_periods)
         if ex_names:
             self.probe("exclude_name")
@@ -553,7 +555,10 @@ class Run:
                                     for i in o["names"]})
                 else:
                     names = []
-                self.fs.exclude_files(names)
+                given = list(names)
+                self.fs.exclude_files(given)
+                given.append(self.be.root + "/not-a-member")
+                del given[:1]         # the caller goes on using its own list
                 self.ex_names_now = set(names)
             self.changes += 1
             return
